@@ -318,6 +318,15 @@ class Gen:
         if in_elem and r.random() < 0.08:
             # an attribute after child content: XSLT 1.0 7.1.3 lets the processor ignore it
             out.append(("attribute", [r.choice(["late", "k"])], [("lit", "L")]))
+        elif r.random() < 0.06:
+            # boundary stream: attribute NODES copied where no start tag is open (after a child / outside any
+            # element), followed by an element that must not receive them
+            allattrs = P([("root", "root", []), ("descendant-or-self", "node", []), ("attribute", N(r.choice([None, "x", "id", "n", "y"])), [])])
+            if r.random() < 0.5:
+                late = ("copy-of", allattrs)
+            else:
+                late = ("for-each", allattrs, [], [("copy", [])])
+            out += [("lit", "c"), late, ("lre", r.choice(["e", "f"]), [], [])]
         return [i for i in out if i is not None]
 
     def instr(self, cx, env, d):
